@@ -99,7 +99,6 @@ func (w *World) verifyFunction(pi *PkgInfo, fn *ssa.Function, c *Contract) (res 
 	for _, fv := range fn.FreeVars {
 		v := u.namedFreshValue(fv.Type(), "fv_"+fv.Name())
 		st.Env[fv] = v
-		fr.params[fv.Name()] = v
 		st.Names[fv.Name()] = nameRef{V: v, IsAddr: true}
 		u.assumeResultOld(st, v)
 	}
